@@ -184,6 +184,18 @@ fn ecies_enc(req: &Value) -> R {
     if let Some(k) = ct.get_cipher_keys() {
         o["keys"] = json!({"iv": h(&k.get_iv()), "ke": h(&k.get_ke()), "km": h(&k.get_km())});
     }
+    // the public key-derivation entry point, from both sides of the exchange
+    if !bo(req, "no_derive") {
+        let kj = |k: CipherKeys| json!({"iv": hex::encode(k.get_iv()), "ke": hex::encode(k.get_ke()), "km": hex::encode(k.get_km())});
+        if let Ok(sk) = mk_key(req, "key", "compressed") {
+            o["derive_sender"] = sub(|| ECIES::derive_cipher_keys(&sk, &recipient), kj);
+            if let Some(rk) = hx_opt(req, "recipient_key")? {
+                let rk = PrivateKey::from_bytes(&rk).map_err(|e| drv(format!("recipient_key: {}", e)))?;
+                let spub = sk.to_public_key().map_err(lib)?;
+                o["derive_recipient"] = sub(|| ECIES::derive_cipher_keys(&rk, &spub), kj);
+            }
+        }
+    }
     // decrypt directly from the in-memory object too (before any serialisation trip)
     if let Some(rk) = hx_opt(req, "recipient_key")? {
         let rk = PrivateKey::from_bytes(&rk).map_err(|e| drv(format!("recipient_key: {}", e)))?;
